@@ -5,6 +5,8 @@ Part A: `splitlinesAux` (CPython's splitlines) and concatenation.
 Part B: the loop of `reverse_iter_lines`.
 Part C: the regex scan of `iter_splitlines` against `splitlinesAux`.
 Part D: `JSONLIterator` (`consume`).
+Part E: joining lines and splitting them again (`indent`).
+Part F: UTF-8 well-formedness of the lines of a well-formed content.
 -/
 namespace C19
 
@@ -1027,5 +1029,180 @@ theorem splitFin_join (ls : List (List Nat)) (hb : ∀ l ∈ ls, NoBrk lineBreak
       rw [he]
       unfold splitFin eightSplitlines at ih
       rw [List.cons_append, ih]
+
+/-! ### Part F: UTF-8 well-formedness survives the split (text mode) -/
+
+theorem isCont_ascii (x : Nat) (hx : x < 128) : isCont x = false := by
+  simp [isCont]; omega
+
+theorem validUtf8G_cons (sp : Bool) (b : Nat) (rest : List Nat) :
+    validUtf8G sp (b :: rest) =
+      if b < 128 then validUtf8G sp rest
+      else if (194 ≤ b && b ≤ 223) = true then
+        match rest with
+        | c1 :: r => isCont c1 && validUtf8G sp r
+        | _ => false
+      else if (224 ≤ b && b ≤ 239) = true then
+        match rest with
+        | c1 :: c2 :: r =>
+          isCont c1 && isCont c2 && (b != 224 || 160 ≤ c1) && (b != 237 || sp || c1 ≤ 159) && validUtf8G sp r
+        | _ => false
+      else if (240 ≤ b && b ≤ 244) = true then
+        match rest with
+        | c1 :: c2 :: c3 :: r =>
+          isCont c1 && isCont c2 && isCont c3 && (b != 240 || 144 ≤ c1) && (b != 244 || c1 ≤ 143)
+            && validUtf8G sp r
+        | _ => false
+      else false := by
+  rw [validUtf8G.eq_def]
+  rfl
+
+theorem validUtf8G_ascii_cons (sp : Bool) (x : Nat) (hx : x < 128) (b : List Nat) :
+    validUtf8G sp (x :: b) = validUtf8G sp b := by
+  rw [validUtf8G_cons]; simp [hx]
+
+/-- cutting a well-formed byte string at an ASCII byte leaves two well-formed strings -/
+theorem validUtf8G_split (sp : Bool) (n : Nat) : ∀ a : List Nat, a.length ≤ n → ∀ (x : Nat) (b : List Nat),
+    x < 128 → validUtf8G sp (a ++ x :: b) = true → validUtf8G sp a = true ∧ validUtf8G sp b = true := by
+  induction n with
+  | zero =>
+    intro a ha x b hx h
+    have : a = [] := List.length_eq_zero_iff.mp (by omega)
+    subst this
+    rw [List.nil_append, validUtf8G_ascii_cons sp x hx] at h
+    exact ⟨by simp [validUtf8G], h⟩
+  | succ n ih =>
+    intro a ha x b hx h
+    have hcx := isCont_ascii x hx
+    match a, ha with
+    | [], _ =>
+      rw [List.nil_append, validUtf8G_ascii_cons sp x hx] at h
+      exact ⟨by simp [validUtf8G], h⟩
+    | h0 :: t, ha =>
+      simp only [List.cons_append] at h
+      rw [validUtf8G_cons] at h
+      rw [validUtf8G_cons]
+      by_cases c1 : h0 < 128
+      · simp only [c1, if_true] at h ⊢
+        exact ih t (by simp at ha; omega) x b hx h
+      · simp only [c1, if_false] at h ⊢
+        by_cases c2 : (194 ≤ h0 && h0 ≤ 223) = true
+        · simp only [c2, if_true] at h ⊢
+          match t, ha with
+          | [], _ => simp [hcx] at h
+          | d1 :: t', ha =>
+            simp only [List.cons_append, Bool.and_eq_true] at h ⊢
+            obtain ⟨i1, i2⟩ := ih t' (by simp at ha; omega) x b hx h.2
+            exact ⟨⟨h.1, i1⟩, i2⟩
+        · simp only [c2, Bool.false_eq_true, if_false] at h ⊢
+          by_cases c3 : (224 ≤ h0 && h0 ≤ 239) = true
+          · simp only [c3, if_true] at h ⊢
+            match t, ha with
+            | [], _ => cases b <;> simp [hcx] at h
+            | [d1], _ => simp [hcx] at h
+            | d1 :: d2 :: t', ha =>
+              simp only [List.cons_append, Bool.and_eq_true] at h ⊢
+              obtain ⟨i1, i2⟩ := ih t' (by simp at ha; omega) x b hx h.2
+              exact ⟨⟨h.1, i1⟩, i2⟩
+          · simp only [c3, Bool.false_eq_true, if_false] at h ⊢
+            by_cases c4 : (240 ≤ h0 && h0 ≤ 244) = true
+            · simp only [c4, if_true] at h ⊢
+              match t, ha with
+              | [], _ => rcases b with _ | ⟨_, _ | ⟨_, _⟩⟩ <;> simp [hcx] at h
+              | [d1], _ => cases b <;> simp [hcx] at h
+              | [d1, d2], _ => simp [hcx] at h
+              | d1 :: d2 :: d3 :: t', ha =>
+                simp only [List.cons_append, Bool.and_eq_true] at h ⊢
+                obtain ⟨i1, i2⟩ := ih t' (by simp at ha; omega) x b hx h.2
+                exact ⟨⟨h.1, i1⟩, i2⟩
+            · simp [c4] at h
+
+/-- the first line of a split, and what the rest is the split of -/
+theorem aux_first_decomp (brk : Nat → Bool) (s l0 : List Nat) (rest : List (List Nat))
+    (h : splitlinesAux brk false s = l0 :: rest) :
+    (s = l0 ∧ rest = []) ∨
+    ∃ x b2, s = l0 ++ x :: b2 ∧ brk x = true ∧ rest = splitlinesAux brk (x == 13) b2 := by
+  induction s generalizing l0 rest with
+  | nil => simp [aux_nil] at h
+  | cons c cs ih =>
+    rw [aux_cons] at h
+    simp only [Bool.false_and, Bool.false_eq_true, if_false] at h
+    by_cases hc : brk c = true
+    · simp only [hc, if_true] at h
+      obtain ⟨h1, h2⟩ := List.cons.inj h
+      right
+      exact ⟨c, cs, by rw [← h1]; rfl, hc, h2.symm⟩
+    · simp only [hc, if_false] at h
+      cases hs : splitlinesAux brk false cs with
+      | nil =>
+        rw [hs] at h
+        simp only [consHead] at h
+        obtain ⟨h1, h2⟩ := List.cons.inj h
+        have hcs : cs = [] := by
+          by_cases hcs : cs = []
+          · exact hcs
+          · exact absurd hs (aux_ne_nil brk cs hcs)
+        left
+        exact ⟨by rw [hcs, ← h1], h2.symm⟩
+      | cons l ls =>
+        rw [hs] at h
+        simp only [consHead] at h
+        obtain ⟨h1, h2⟩ := List.cons.inj h
+        rcases ih l ls hs with ⟨e1, e2⟩ | ⟨x, b2, e1, e2, e3⟩
+        · left
+          exact ⟨by rw [← h1, e1], by rw [← h2, e2]⟩
+        · right
+          exact ⟨x, b2, by rw [← h1, e1]; rfl, e2, by rw [← h2, e3]⟩
+
+/-- every line of a well-formed byte string split at ASCII bytes is well-formed: no line ends or
+    begins inside a multi-byte character -/
+theorem aux_lines_valid (sp : Bool) (brk : Nat → Bool) (hb : ∀ x, brk x = true → x < 128) (n : Nat) :
+    ∀ (s : List Nat) (f : Bool), s.length ≤ n → validUtf8G sp s = true →
+      ∀ l ∈ splitlinesAux brk f s, validUtf8G sp l = true := by
+  induction n with
+  | zero =>
+    intro s f hs _ l hl
+    have : s = [] := List.length_eq_zero_iff.mp (by omega)
+    subst this
+    simp [aux_nil] at hl
+  | succ n ih =>
+    intro s f hs hv l hl
+    -- the lines of `s` read with the flag off
+    have key : ∀ l ∈ splitlinesAux brk false s, validUtf8G sp l = true := by
+      intro l hl
+      cases hsp : splitlinesAux brk false s with
+      | nil => rw [hsp] at hl; cases hl
+      | cons l0 rest =>
+        rw [hsp] at hl
+        rcases aux_first_decomp brk s l0 rest hsp with ⟨e1, e2⟩ | ⟨x, b2, e1, e2, e3⟩
+        · subst e2
+          have : l = l0 := by simpa using hl
+          rw [this, ← e1]; exact hv
+        · rw [e1] at hv
+          obtain ⟨v1, v2⟩ := validUtf8G_split sp l0.length l0 (Nat.le_refl _) x b2 (hb x e2) hv
+          rcases List.mem_cons.mp hl with rfl | hl
+          · exact v1
+          · rw [e3] at hl
+            have hlen : b2.length ≤ n := by
+              have := congrArg List.length e1
+              simp at this
+              omega
+            exact ih b2 _ hlen v2 l hl
+    cases s with
+    | nil => simp [aux_nil] at hl
+    | cons c cs =>
+      by_cases h1 : (f && c == 10) = true
+      · rw [aux_cons] at hl
+        simp only [h1, if_true] at hl
+        have hc : c = 10 := by simp at h1; exact h1.2
+        subst hc
+        have v2 : validUtf8G sp cs = true := by
+          rw [validUtf8G_ascii_cons sp 10 (by decide)] at hv; exact hv
+        exact ih cs false (by simp at hs; omega) v2 l hl
+      · have h1' : (f && c == 10) = false := by simpa using h1
+        have : splitlinesAux brk f (c :: cs) = splitlinesAux brk false (c :: cs) := by
+          rw [aux_cons, aux_cons]; simp [h1']
+        rw [this] at hl
+        exact key l hl
 
 end C19
